@@ -1,4 +1,5 @@
 import Driver.Journal
+import Driver.Config
 open Driver
 
 structure DState where
@@ -9,7 +10,10 @@ def step (s : DState) (line : String) : DState × String :=
   let ws := words line
   match journalCmd s.comp s.loaded ws with
   | some (t, l, out) => ({ s with comp := t, loaded := l }, out)
-  | none => (s, "bad-op")
+  | none =>
+    match configCmd ws with
+    | some out => (s, out)
+    | none => (s, "bad-op")
 
 partial def loop (h : IO.FS.Stream) (out : IO.FS.Stream) (s : DState) : IO Unit := do
   let line ← h.getLine
